@@ -437,6 +437,24 @@ def run(rep, tier):
     elif o.died or o.code != 0 or o.out != want:
         rep.violation("C10/cyclic-self", "a container that reaches itself, compared with itself (same container on both sides): expected true for ==, false for != everywhere; got exit %s stdout %r stderr %r" % (
             o.code, o.out.decode("utf-8", "replace").split(), o.err[:160]), {"src": cyc_src, "oracle": "x == x for the same container; === implies =="})
+    # operands written literally next to the operator (`x == []`, `{} != ""`): the same table as for variables
+    from . import c16
+    from .. import harness
+    harness.run_cases(rep, "seedverif.checks.c16", c16.literal_operand_descs(["==", "!=", "===", "!=="], tier), {"oracle": "documented-domain table, literal operands"})
+    # strings that are fragments of multi-byte characters are compared byte for byte
+    frag_src = ('e := "é"\nc := "✓"\nprint(e[0] == e[1])\nprint(e[0] == e[0])\nprint(e[0] != e[1])\nprint([e[0]] == [e[1]])\nprint({"k": c[0:2]} == {"k": c[1:3]})\n'
+                'print((c[0:1] + c[1:3]) == c)\nprint(e[0] == e)\nprint((e[0] + e[1]) == e)\nprint(e[1] == c[1])\nprint(c[1:2] == c[2:3])\nprint(c[0:2] != c[0:2])\n'
+                'n := 0\nfor [_, b] in c {\n    for [_, d] in c {\n        if b == d {\n            n += 1\n        }\n    }\n}\nprint(n)\n')
+    o = core.run_one({"src": frag_src})
+    rep.evaluations += 1
+    rep.process_runs += 1
+    rep.tally("single_pairs", "byte-fragments")
+    want = b"false\ntrue\ntrue\nfalse\nfalse\ntrue\nfalse\ntrue\nfalse\nfalse\nfalse\n3\n"
+    if o.timeout:
+        rep.note_inconclusive("byte fragments: timeout")
+    elif o.died or o.code != 0 or o.out != want:
+        rep.violation("C10/byte-fragments", "strings cut inside a multi-byte character are equal exactly when their bytes are: expected %r, got exit %s stdout %r stderr %r" % (
+            want.split(), o.code, o.out.split(), o.err[:160]), {"src": frag_src, "oracle": "string equality is byte equality"})
     # error / traversal-dependent pairs, one process each
     pairs = []
     for i in range(n):
